@@ -691,8 +691,8 @@ class Dataset(AbstractDataset, dict, OpMixin, GetSetDelAttrMixin):
             dataset.axes[axis][mask] = values[mask]
 
             for k in dataset.keys():
-                if method is None:
-                    dataset[k].put(mask, fill_value, axis=axis, inplace=True, indexing="position", cast=True)
+                if method is None and newax.name in dataset[k].dims: # (variables without that dimension are left alone)
+                    dataset[k].put(mask, fill_value, axis=newax.name, inplace=True, indexing="position", cast=True)
 
         return dataset
 
@@ -910,10 +910,14 @@ def concatenate_ds(datasets, axis=0, align=False, **kwargs):
             datasets = da.align(datasets, axis=d, strict=True, **kwargs)
 
     # Compute concatenated dataset
+    axis_nm = datasets[0].axes[axis].name # the dataset's axis, by name: variables list their dimensions in their own order
     dataset = Dataset()
     for v in variables:
         arrays = [ds[v] for ds in datasets]
-        array = concatenate(arrays, axis=axis, align=False, _no_check=align)
+        if axis_nm not in arrays[0].dims: # nothing to concatenate: the variable is left as it is
+            dataset[v] = arrays[0]
+            continue
+        array = concatenate(arrays, axis=axis_nm, align=False, _no_check=align)
         dataset[v] = array
 
     return dataset
